@@ -14,17 +14,19 @@
 //!       stored-block streams; the same tables as bare sfnt and as a collection.
 use allsorts::binary::read::ReadScope;
 use allsorts::font_data::FontData;
-use allsorts::tables::{FontTableProvider, OpenTypeData, SfntVersion};
+use allsorts::error::ParseError;
+use allsorts::tables::{FontTableProvider, OpenTypeData, OpenTypeFont, SfntVersion};
+use allsorts::woff::WoffFont;
 use flate2::write::ZlibEncoder;
 use flate2::Compression;
 use rand::rngs::StdRng;
 use rand::seq::SliceRandom;
 use rand::{Rng, SeedableRng};
 use serde_json::{json, Value};
-use std::io::{Read, Write};
+use std::io::{BufRead, BufReader, Read, Write};
 use vh::fontgen::{be16, be32, read_sfnt_dir, W};
 use vh::sup::{guarded, Outcome};
-use vh::util::{read_ndjson, repo_fonts, NdWriter};
+use vh::util::{repo_fonts, NdWriter};
 
 fn b4(v: u32) -> Vec<u8> {
     v.to_be_bytes().to_vec()
@@ -76,31 +78,168 @@ fn observe(bytes: &[u8], n_members: usize, qtags: &[u32]) -> Value {
     json!({"load": true, "kind": kind_of(&fd), "members": members})
 }
 
+/// What one provider answers, in the vocabulary of MC_Sfnt!MemberObs. `data` decides how the table bytes are asked for.
+fn member_obs<P: FontTableProvider + SfntVersion>(i: usize, p: &P, qtags: &[u32], data: &dyn Fn(u32) -> Value) -> Value {
+    let tags: Vec<Vec<u8>> = p.table_tags().unwrap_or_default().into_iter().map(b4).collect();
+    let mut d = Vec::new();
+    let mut has = Vec::new();
+    for &t in qtags {
+        d.push(data(t));
+        has.push(p.has_table(t));
+    }
+    json!({"i": i, "ok": true, "flavor": b4(p.sfnt_version()), "tags": tags, "data": d, "has": has})
+}
+
+fn some(d: &[u8]) -> Value {
+    json!({"ok": true, "err": "", "v": ["some", d.to_vec()]})
+}
+fn none() -> Value {
+    json!({"ok": true, "err": "", "v": ["none"]})
+}
+fn err() -> Value {
+    json!({"ok": false, "err": "Err", "v": []})
+}
+fn no_member(i: usize) -> Value {
+    json!({"i": i, "ok": false, "flavor": [], "tags": [], "data": [], "has": []})
+}
+
+/// The same observation without FontData / DynamicFontTableProvider: OpenTypeFont::read + OpenTypeFont::table_provider
+/// (OffsetTableFontProvider) and WoffFont::read (WoffFont is its own provider); tables through the default method
+/// read_table_data (absence = ParseError::MissingTable of that tag).
+fn observe_direct(bytes: &[u8], n_members: usize, qtags: &[u32]) -> Value {
+    let via_rtd = |p: &dyn FontTableProvider, t: u32| match p.read_table_data(t) {
+        Ok(d) => some(&d),
+        Err(ParseError::MissingTable(m)) if m == t => none(),
+        Err(_) => err(),
+    };
+    if bytes.len() >= 4 && &bytes[0..4] == b"wOFF" {
+        let w = match ReadScope::new(bytes).read::<WoffFont<'_>>() {
+            Ok(w) => w,
+            Err(_) => return json!({"load": false, "kind": "", "members": []}),
+        };
+        let members: Vec<Value> = (0..n_members).map(|i| member_obs(i, &w, qtags, &|t| via_rtd(&w, t))).collect();
+        return json!({"load": true, "kind": "woff", "members": members});
+    }
+    let f = match ReadScope::new(bytes).read::<OpenTypeFont<'_>>() {
+        Ok(f) => f,
+        Err(_) => return json!({"load": false, "kind": "", "members": []}),
+    };
+    let kind = match f.data {
+        OpenTypeData::Single(_) => "sfnt",
+        OpenTypeData::Collection(_) => "ttc",
+    };
+    let members: Vec<Value> = (0..n_members)
+        .map(|i| match f.table_provider(i) {
+            Err(_) => no_member(i),
+            Ok(p) => member_obs(i, &p, qtags, &|t| via_rtd(&p, t)),
+        })
+        .collect();
+    json!({"load": true, "kind": kind, "members": members})
+}
+
+/// The anchors' own grain: OpenTypeFont::offset_table(i) -> OffsetTable::find_table_record / read_table on the file
+/// scope, WoffFont::find_table_directory_entry -> TableDirectoryEntry::read_table. Tags and flavour from the fields.
+fn observe_records(bytes: &[u8], n_members: usize, qtags: &[u32]) -> Value {
+    if bytes.len() >= 4 && &bytes[0..4] == b"wOFF" {
+        let w = match ReadScope::new(bytes).read::<WoffFont<'_>>() {
+            Ok(w) => w,
+            Err(_) => return json!({"load": false, "kind": "", "members": []}),
+        };
+        let tags: Vec<Vec<u8>> = w.table_directory.iter().map(|e| b4(e.tag)).collect();
+        let mut data = Vec::new();
+        let mut has = Vec::new();
+        for &t in qtags {
+            let e = w.find_table_directory_entry(t);
+            has.push(e.is_some());
+            data.push(match e {
+                None => none(),
+                Some(e) => match e.read_table(&w.scope) {
+                    Ok(b) => some(&b.into_data()),
+                    Err(_) => err(),
+                },
+            });
+        }
+        let members: Vec<Value> = (0..n_members)
+            .map(|i| json!({"i": i, "ok": true, "flavor": b4(w.flavor()), "tags": tags, "data": data, "has": has}))
+            .collect();
+        return json!({"load": true, "kind": "woff", "members": members});
+    }
+    let f = match ReadScope::new(bytes).read::<OpenTypeFont<'_>>() {
+        Ok(f) => f,
+        Err(_) => return json!({"load": false, "kind": "", "members": []}),
+    };
+    let kind = match f.data {
+        OpenTypeData::Single(_) => "sfnt",
+        OpenTypeData::Collection(_) => "ttc",
+    };
+    let mut members = Vec::new();
+    for i in 0..n_members {
+        let ot = match f.offset_table(i) {
+            Ok(ot) => ot,
+            Err(_) => {
+                members.push(no_member(i));
+                continue;
+            }
+        };
+        let tags: Vec<Vec<u8>> = ot.table_records.iter().map(|r| b4(r.table_tag)).collect();
+        let mut data = Vec::new();
+        let mut has = Vec::new();
+        for &t in qtags {
+            has.push(ot.find_table_record(t).is_some());
+            data.push(match ot.read_table(&f.scope, t) {
+                Ok(Some(sc)) => some(sc.data()),
+                Ok(None) => none(),
+                Err(_) => err(),
+            });
+        }
+        members.push(json!({"i": i, "ok": true, "flavor": b4(ot.sfnt_version), "tags": tags, "data": data, "has": has}));
+    }
+    json!({"load": true, "kind": kind, "members": members})
+}
+
 fn replay(cases: &str, out: &str) {
-    let cases = read_ndjson(cases);
+    // streamed: the thorough tier's CASE file has several hundred MB
+    let input = BufReader::new(std::fs::File::open(cases).expect("cases file"));
+    let mut n_cases = 0usize;
     let mut w = NdWriter::create(out);
     let mut n_queries = 0usize;
     let mut kinds = std::collections::BTreeMap::<String, usize>::new();
-    for (ci, case) in cases.iter().enumerate() {
+    let mut variants = std::collections::BTreeMap::<String, usize>::new();
+    type Route = fn(&[u8], usize, &[u32]) -> Value;
+    let routes: [(&str, Route); 3] = [("fontdata", observe), ("direct", observe_direct), ("records", observe_records)];
+    for (ci, line) in input.lines().enumerate() {
+        let line = line.expect("read cases");
+        if line.trim().is_empty() {
+            continue;
+        }
+        let case: Value = serde_json::from_str(&line).expect("case json");
+        n_cases += 1;
         let bytes: Vec<u8> = case["bytes"].as_array().unwrap().iter().map(|b| b.as_u64().unwrap() as u8).collect();
         let qtags: Vec<u32> = case["qtags"].as_array().unwrap().iter().map(tag_of).collect();
         let n_members = case["exp"]["members"].as_array().map(|m| m.len()).unwrap_or(0).max(1);
-        let got = match guarded(|| observe(&bytes, n_members, &qtags)) {
-            Outcome::Returned(v) => v,
-            Outcome::Panicked(m) => json!({"panic": m}),
-        };
-        // when loading fails the specification lists no members
-        let got = if got["load"] == json!(false) { json!({"load": false, "kind": "", "members": []}) } else { got };
-        n_queries += n_members * (qtags.len() * 2 + 2);
         *kinds.entry(format!("{}/{}", case["kind"].as_str().unwrap(), case["damage"].as_str().unwrap())).or_default() += 1;
-        if got != case["exp"] {
-            w.write(&json!({"case": ci, "kind": case["kind"], "damage": case["damage"], "bytes": bytes,
-                            "qtags": case["qtags"], "want": case["exp"], "got": got}));
+        // the family of layout / form, as named by MC_Sfnt!Variant (an input of the replay, not an answer)
+        let variant = case["variant"].as_str().unwrap_or("").to_string();
+        for part in variant.split('/') {
+            *variants.entry(format!("{}:{}", case["kind"].as_str().unwrap(), part)).or_default() += 1;
+        }
+        for (route, f) in routes.iter() {
+            let got = match guarded(|| f(&bytes, n_members, &qtags)) {
+                Outcome::Returned(v) => v,
+                Outcome::Panicked(m) => json!({"panic": m}),
+            };
+            // when loading fails the specification lists no members
+            let got = if got["load"] == json!(false) { json!({"load": false, "kind": "", "members": []}) } else { got };
+            n_queries += n_members * (qtags.len() * 2 + 2);
+            if got != case["exp"] {
+                w.write(&json!({"case": ci, "route": route, "kind": case["kind"], "damage": case["damage"], "variant": variant,
+                                "bytes": bytes, "qtags": case["qtags"], "want": case["exp"], "got": got}));
+            }
         }
     }
     let mism = w.n;
     w.finish();
-    println!("{}", json!({"cases": cases.len(), "queries": n_queries, "mismatches": mism, "kinds": kinds}));
+    println!("{}", json!({"cases": n_cases, "queries": n_queries, "mismatches": mism, "kinds": kinds, "variants": variants}));
 }
 
 // ---- recording --------------------------------------------------------------------------------
@@ -121,11 +260,36 @@ struct Member {
     dir: Vec<(u32, usize)>, // tag, tid (0-based)
 }
 
-fn write_offset_table(w: &mut W, m: &Member, at: &[usize], tables: &[Vec<u8>]) {
+fn table_checksum(d: &[u8]) -> u32 {
+    let mut sum = 0u32;
+    for c in d.chunks(4) {
+        let mut w = [0u8; 4];
+        w[..c.len()].copy_from_slice(c);
+        sum = sum.wrapping_add(u32::from_be_bytes(w));
+    }
+    sum
+}
+
+/// `real`: searchRange / entrySelector / rangeShift and the checksums as a font tool writes them; otherwise zeros
+/// (nothing the property observes depends on them).
+fn write_offset_table(w: &mut W, m: &Member, at: &[usize], tables: &[Vec<u8>], real: bool) {
     let n = m.dir.len() as u16;
-    w.u32(m.flavor).u16(n).u16(0).u16(0).u16(0);
+    if real && n > 0 {
+        let e = 15 - n.leading_zeros() as u16;
+        w.u32(m.flavor).u16(n).u16(16 << e).u16(e).u16(16 * n - (16 << e));
+    } else {
+        w.u32(m.flavor).u16(n).u16(0).u16(0).u16(0);
+    }
     for (tag, tid) in &m.dir {
-        w.u32(*tag).u32(0).u32(at[*tid] as u32).u32(tables[*tid].len() as u32);
+        w.u32(*tag).u32(if real { table_checksum(&tables[*tid]) } else { 0 }).u32(at[*tid] as u32).u32(tables[*tid].len() as u32);
+    }
+}
+
+fn pick_gap(pos: usize, rng: &mut StdRng) -> usize {
+    match rng.gen_range(0..4) {
+        0 => 0,
+        1 => (4 - pos % 4) % 4,
+        _ => rng.gen_range(0..6),
     }
 }
 
@@ -135,11 +299,7 @@ fn lay_bodies(bodies: &[Vec<u8>], order: &[usize], start: usize, rng: &mut StdRn
     let mut at = vec![0usize; bodies.len()];
     let mut out = Vec::new();
     for &t in order {
-        let gap = match rng.gen_range(0..4) {
-            0 => 0,
-            1 => (4 - (start + out.len()) % 4) % 4,
-            _ => rng.gen_range(0..6),
-        };
+        let gap = pick_gap(start + out.len(), rng);
         out.extend(std::iter::repeat(0u8).take(gap));
         at[t] = start + out.len();
         out.extend_from_slice(&bodies[t]);
@@ -147,32 +307,124 @@ fn lay_bodies(bodies: &[Vec<u8>], order: &[usize], start: usize, rng: &mut StdRn
     (at, out)
 }
 
-fn build_ttc(tables: &[Vec<u8>], members: &[Member], rng: &mut StdRng) -> Vec<u8> {
+/// Physical layout of a collection (the vocabulary of Sfnt!WriteTtcPlan / MC_Sfnt!MkPlan).
+#[derive(Clone, Copy)]
+struct TtcOpts {
+    lay: &'static str,  // after | before | split | tail | revdirs | inter | random
+    hdr: &'static str,  // v1 | v2null | v2dsig
+    share: bool,        // members with the same flavour and directory share one offset table
+    real: bool,
+}
+
+const TTC_LAYOUTS: [&str; 7] = ["after", "before", "split", "tail", "revdirs", "inter", "random"];
+const TTC_HEADERS: [&str; 3] = ["v1", "v2null", "v2dsig"];
+
+fn random_ttc_opts(rng: &mut StdRng) -> TtcOpts {
+    TtcOpts { lay: TTC_LAYOUTS[rng.gen_range(0..TTC_LAYOUTS.len())], hdr: TTC_HEADERS[rng.gen_range(0..3)],
+              share: rng.gen_bool(0.5), real: rng.gen_bool(0.5) }
+}
+
+#[derive(Clone, Copy)]
+enum Item {
+    D(usize),
+    B(usize),
+}
+
+fn build_ttc(tables: &[Vec<u8>], members: &[Member], o: TtcOpts, rng: &mut StdRng) -> Vec<u8> {
     let mut order: Vec<usize> = (0..tables.len()).collect();
     order.shuffle(rng);
-    let hdr = 12 + 4 * members.len();
-    let dirs: usize = members.iter().map(|m| 12 + 16 * m.dir.len()).sum();
-    let (at, bodies) = lay_bodies(tables, &order, hdr + dirs, rng);
+    let dir_of: Vec<usize> = (0..members.len())
+        .map(|m| if o.share { (0..=m).find(|&j| members[j].flavor == members[m].flavor && members[j].dir == members[m].dir).unwrap() } else { m })
+        .collect();
+    let ds: Vec<Item> = (0..members.len()).filter(|&m| dir_of[m] == m).map(Item::D).collect();
+    let bs: Vec<Item> = order.iter().map(|&t| Item::B(t)).collect();
+    let cut = |k: usize| k.min(bs.len());
+    let plan: Vec<Item> = match o.lay {
+        "after" => ds.iter().chain(bs.iter()).cloned().collect(),
+        "before" => bs.iter().chain(ds.iter()).cloned().collect(),
+        "split" => bs[..cut(1)].iter().chain(ds.iter()).chain(bs[cut(1)..].iter()).cloned().collect(),
+        "tail" => {
+            let k = bs.len().saturating_sub(1);
+            bs[..k].iter().chain(ds.iter()).chain(bs[k..].iter()).cloned().collect()
+        }
+        "revdirs" => ds.iter().rev().chain(bs.iter()).cloned().collect(),
+        "inter" => {
+            // offset table, some bodies, offset table, some bodies ...
+            let per = (bs.len() + ds.len().max(1) - 1) / ds.len().max(1);
+            let mut v = Vec::new();
+            let mut k = 0;
+            for d in &ds {
+                v.push(*d);
+                v.extend_from_slice(&bs[cut(k)..cut(k + per)]);
+                k += per;
+            }
+            v.extend_from_slice(&bs[cut(k)..]);
+            v
+        }
+        "random" => {
+            let mut v: Vec<Item> = ds.iter().chain(bs.iter()).cloned().collect();
+            v.shuffle(rng);
+            v
+        }
+        _ => unreachable!(),
+    };
+    let hdr = 12 + 4 * members.len() + if o.hdr == "v1" { 0 } else { 12 };
+    // positions
+    let mut pos = hdr;
+    let mut start = vec![0usize; members.len()];
+    let mut at = vec![0usize; tables.len()];
+    let mut gaps = vec![0usize; tables.len()];
+    for it in &plan {
+        match *it {
+            Item::D(m) => {
+                start[m] = pos;
+                pos += 12 + 16 * members[m].dir.len();
+            }
+            Item::B(t) => {
+                gaps[t] = pick_gap(pos, rng);
+                at[t] = pos + gaps[t];
+                pos += gaps[t] + tables[t].len();
+            }
+        }
+    }
+    let pad = (4 - pos % 4) % 4;
+    let dsig: [u8; 8] = [0, 0, 0, 1, 0, 0, 0, 0];
     let mut w = W::new();
-    w.tag("ttcf").u16(if rng.gen_bool(0.5) { 1 } else { 2 }).u16(0).u32(members.len() as u32);
-    let mut p = hdr;
-    for m in members {
-        w.u32(p as u32);
-        p += 12 + 16 * m.dir.len();
+    w.tag("ttcf").u16(if o.hdr == "v1" { 1 } else { 2 }).u16(0).u32(members.len() as u32);
+    for m in 0..members.len() {
+        w.u32(start[dir_of[m]] as u32);
     }
-    for m in members {
-        write_offset_table(&mut w, m, &at, tables);
+    match o.hdr {
+        "v1" => {}
+        "v2null" => {
+            w.u32(0).u32(0).u32(0);
+        }
+        _ => {
+            w.tag("DSIG").u32(dsig.len() as u32).u32((pos + pad) as u32);
+        }
     }
-    w.bytes(&bodies);
+    for it in &plan {
+        match *it {
+            Item::D(m) => write_offset_table(&mut w, &members[m], &at, tables, o.real),
+            Item::B(t) => {
+                w.bytes(&vec![0u8; gaps[t]]);
+                w.bytes(&tables[t]);
+            }
+        }
+    }
+    if o.hdr == "v2dsig" {
+        w.bytes(&vec![0u8; pad]);
+        w.bytes(&dsig);
+    }
     w.done()
 }
 
-fn build_sfnt(tables: &[Vec<u8>], m: &Member, rng: &mut StdRng) -> Vec<u8> {
+fn build_sfnt(tables: &[Vec<u8>], m: &Member, real: bool, rng: &mut StdRng) -> Vec<u8> {
     let mut order: Vec<usize> = (0..tables.len()).collect();
     order.shuffle(rng);
     let (at, bodies) = lay_bodies(tables, &order, 12 + 16 * m.dir.len(), rng);
     let mut w = W::new();
-    write_offset_table(&mut w, m, &at, tables);
+    write_offset_table(&mut w, m, &at, tables, real);
     w.bytes(&bodies);
     w.done()
 }
@@ -183,7 +435,7 @@ fn zlib(data: &[u8], level: u32) -> Vec<u8> {
     e.finish().unwrap()
 }
 
-fn build_woff(tables: &[Vec<u8>], m: &Member, rng: &mut StdRng) -> (Vec<u8>, Vec<bool>) {
+fn build_woff(tables: &[Vec<u8>], m: &Member, ext: u8, rng: &mut StdRng) -> (Vec<u8>, Vec<bool>) {
     // per-table: stored raw, or zlib at a random level (kept only if the stream length differs
     // from the table length, otherwise the entry would read as uncompressed)
     let mut stored: Vec<Vec<u8>> = Vec::new();
@@ -201,20 +453,49 @@ fn build_woff(tables: &[Vec<u8>], m: &Member, rng: &mut StdRng) -> (Vec<u8>, Vec
         stored.push(s);
         zipped.push(z);
     }
-    (build_woff_stored(tables, &stored, m, rng), zipped)
+    (build_woff_stored(tables, &stored, m, ext, rng), zipped)
 }
 
 /// WOFF file around given stored forms (`stored[t]` is `tables[t]` itself or a zlib stream of it).
-fn build_woff_stored(tables: &[Vec<u8>], stored: &[Vec<u8>], m: &Member, rng: &mut StdRng) -> Vec<u8> {
+/// ext: 0 = tables only; 1 = an extended-metadata block (zlib) after the tables; 2 = metadata and a private block.
+/// With ext > 0 totalSfntSize and a font version are filled in as well.
+fn build_woff_stored(tables: &[Vec<u8>], stored: &[Vec<u8>], m: &Member, ext: u8, rng: &mut StdRng) -> Vec<u8> {
     let mut order: Vec<usize> = (0..tables.len()).collect();
     order.shuffle(rng);
     let hdr = 44 + 20 * m.dir.len();
-    let (at, bodies) = lay_bodies(stored, &order, hdr, rng);
+    let (at, mut bodies) = lay_bodies(stored, &order, hdr, rng);
+    let xml = b"<?xml version=\"1.0\" encoding=\"UTF-8\"?><metadata version=\"1.0\"><uniqueid id=\"verif.c10\"/></metadata>";
+    let (mut meta_at, mut meta_len, mut meta_orig, mut priv_at, mut priv_len) = (0usize, 0usize, 0usize, 0usize, 0usize);
+    if ext >= 1 {
+        while (hdr + bodies.len()) % 4 != 0 {
+            bodies.push(0);
+        }
+        let z = zlib(xml, 6);
+        meta_at = hdr + bodies.len();
+        meta_len = z.len();
+        meta_orig = xml.len();
+        bodies.extend_from_slice(&z);
+    }
+    if ext >= 2 {
+        while (hdr + bodies.len()) % 4 != 0 {
+            bodies.push(0);
+        }
+        priv_at = hdr + bodies.len();
+        priv_len = 37;
+        bodies.extend((0..37u8).map(|k| k.wrapping_mul(37)));
+    }
+    let sfnt_size: usize = 12 + 16 * m.dir.len() + m.dir.iter().map(|(_, t)| (tables[*t].len() + 3) & !3).sum::<usize>();
     let mut w = W::new();
     w.tag("wOFF").u32(m.flavor).u32((hdr + bodies.len()) as u32).u16(m.dir.len() as u16).u16(0);
-    w.u32(0).u16(1).u16(0).u32(0).u32(0).u32(0).u32(0).u32(0);
+    if ext >= 1 {
+        w.u32(sfnt_size as u32).u16(2).u16(7);
+    } else {
+        w.u32(0).u16(1).u16(0);
+    }
+    w.u32(meta_at as u32).u32(meta_len as u32).u32(meta_orig as u32).u32(priv_at as u32).u32(priv_len as u32);
     for (tag, tid) in &m.dir {
-        w.u32(*tag).u32(at[*tid] as u32).u32(stored[*tid].len() as u32).u32(tables[*tid].len() as u32).u32(0);
+        w.u32(*tag).u32(at[*tid] as u32).u32(stored[*tid].len() as u32).u32(tables[*tid].len() as u32)
+            .u32(if ext >= 1 { table_checksum(&tables[*tid]) } else { 0 });
     }
     w.bytes(&bodies);
     w.done()
@@ -473,7 +754,9 @@ fn record_syn_woff(rec: &mut Rec, classes: &mut Classes, family: usize, name: &s
     let mut dir: Vec<(u32, usize)> = (0..ts.len()).map(|k| (syn_tag(family, k), k)).collect();
     dir.shuffle(rng);
     let m = Member { flavor: [0x00010000u32, 0x4F54544F, 0x74727565][family % 3], dir };
-    let b = build_woff_stored(&tables, &stored, &m, rng);
+    let ext = (family % 3) as u8; // families 0, 3: tables only; 1, 4: + metadata; 2: + metadata and private block
+    *classes.entry(format!("woff:ext:{}", ext)).or_default() += 1;
+    let b = build_woff_stored(&tables, &stored, &m, ext, rng);
     let info: Vec<Value> = ts
         .iter()
         .enumerate()
@@ -483,6 +766,26 @@ fn record_syn_woff(rec: &mut Rec, classes: &mut Classes, family: usize, name: &s
         count_classes(classes, "woff", t);
     }
     record_container(rec, &format!("syn-{}/woff", name), "woff", &b, &tables, &[m], json!({"source": "synthesized", "tables": info}));
+}
+
+/// Layout classes of a collection the harness is about to build (its own choices, nothing allsorts said).
+fn count_ttc_opts(classes: &mut Classes, o: &TtcOpts, members: &[Member]) {
+    let mut add = |c: String| *classes.entry(c).or_default() += 1;
+    add(format!("ttc:lay:{}", o.lay));
+    add(format!("ttc:hdr:{}", o.hdr));
+    add(format!("ttc:lay:{}:hdr:{}", o.lay, o.hdr));
+    add(format!("ttc:fields:{}", if o.real { "real" } else { "zero" }));
+    let twins = (0..members.len()).any(|m| (0..m).any(|j| members[j].flavor == members[m].flavor && members[j].dir == members[m].dir));
+    if o.share && twins {
+        add("ttc:shared-offset-table".to_string());
+    }
+    let mut fl: Vec<u32> = members.iter().map(|m| m.flavor).collect();
+    fl.sort();
+    fl.dedup();
+    if fl.len() > 1 {
+        add("ttc:mixed-flavours".to_string());
+    }
+    add(format!("ttc:members:{}", members.len()));
 }
 
 /// Synthesized containers whose tables sit on both sides of the boundaries an inflating reader has
@@ -587,24 +890,60 @@ fn record_size_classes(rec: &mut Rec, seed: u64) -> Classes {
     let mut dir: Vec<(u32, usize)> = (0..big.len()).map(|k| (syn_tag(5, k), k)).collect();
     dir.shuffle(&mut rng);
     let m = Member { flavor: 0x00010000, dir: dir.clone() };
-    let b = build_sfnt(&big, &m, &mut rng);
+    let b = build_sfnt(&big, &m, true, &mut rng);
     record_container(rec, "syn-big/sfnt", "sfnt", &b, &big, &[m], json!({"source": "synthesized"}));
-    let members: Vec<Member> = (0..3)
-        .map(|j| {
-            let mut d: Vec<(u32, usize)> = dir.iter().cloned().filter(|(_, k)| k % 3 != j).collect();
-            d.shuffle(&mut rng);
-            Member { flavor: [0x4F54544Fu32, 0x00010000, 0x74727565][j], dir: d }
-        })
-        .collect();
-    let b = build_ttc(&big, &members, &mut rng);
-    record_container(rec, "syn-big/ttc", "ttc", &b, &big, &members, json!({"source": "synthesized"}));
+    // four members: three different selections of the tables and a twin of the first (may share its offset table);
+    // every physical layout once, header forms and directory-field styles in rotation
+    let mk_members = |rng: &mut StdRng| -> Vec<Member> {
+        let mut ms: Vec<Member> = (0..3)
+            .map(|j| {
+                let mut d: Vec<(u32, usize)> = dir.iter().cloned().filter(|(_, k)| k % 3 != j).collect();
+                d.shuffle(rng);
+                Member { flavor: [0x4F54544Fu32, 0x00010000, 0x74727565][j], dir: d }
+            })
+            .collect();
+        ms.push(Member { flavor: ms[0].flavor, dir: ms[0].dir.clone() });
+        ms
+    };
+    for (k, lay) in TTC_LAYOUTS.iter().enumerate() {
+        let o = TtcOpts { lay, hdr: TTC_HEADERS[k % 3], share: k % 2 == 0, real: k % 4 < 2 };
+        let members = mk_members(&mut rng);
+        count_ttc_opts(&mut classes, &o, &members);
+        let b = build_ttc(&big, &members, o, &mut rng);
+        record_container(rec, &format!("syn-big-{}-{}/ttc", o.lay, o.hdr), "ttc", &b, &big, &members,
+                         json!({"source": "synthesized", "lay": o.lay, "hdr": o.hdr, "share": o.share, "real": o.real}));
+    }
+    // small tables (lengths 0, 1, 3, 4, 5, 21, 70 001): every layout x every header form, 1-4 members, mixed flavours
+    let small: Vec<Vec<u8>> = [0usize, 1, 3, 4, 5, 21, 70_001].iter().map(|&n| rbuf[n..2 * n].to_vec()).collect();
+    let mut k = 0usize;
+    for lay in TTC_LAYOUTS.iter() {
+        for hdr in TTC_HEADERS.iter() {
+            k += 1;
+            let o = TtcOpts { lay, hdr, share: k % 2 == 1, real: k % 3 == 0 };
+            let nm = 1 + k % 4;
+            let mut members: Vec<Member> = Vec::new();
+            for j in 0..nm {
+                if j == 2 {
+                    members.push(Member { flavor: members[0].flavor, dir: members[0].dir.clone() }); // a twin of member 0
+                    continue;
+                }
+                let mut d: Vec<(u32, usize)> = (0..small.len()).filter(|t| (t + j + k) % 4 != 0).map(|t| (syn_tag(6, t), t)).collect();
+                d.shuffle(&mut rng);
+                members.push(Member { flavor: [0x00010000u32, 0x4F54544F, 0x74727565][(j + k) % 3], dir: d });
+            }
+            count_ttc_opts(&mut classes, &o, &members);
+            let b = build_ttc(&small, &members, o, &mut rng);
+            record_container(rec, &format!("syn-lay-{}-{}/ttc", lay, hdr), "ttc", &b, &small, &members,
+                             json!({"source": "synthesized", "lay": lay, "hdr": hdr, "share": o.share, "real": o.real}));
+        }
+    }
     classes
 }
 
 fn record(seed: u64, max_fonts: usize, out: &str) {
     let mut rng = StdRng::seed_from_u64(seed);
     let mut rec = Rec { w: NdWriter::create(out), i: 0 };
-    let classes = record_size_classes(&mut rec, seed);
+    let mut classes = record_size_classes(&mut rec, seed);
     let syn_events = rec.w.n;
     let mut fonts = repo_fonts();
     fonts.shuffle(&mut rng);
@@ -654,24 +993,35 @@ fn record(seed: u64, max_fonts: usize, out: &str) {
         let mut d2 = full.dir.clone();
         d2.shuffle(&mut rng);
         let m2 = Member { flavor: dir.version, dir: d2 };
-        let b = build_sfnt(&tables, &m2, &mut rng);
-        record_container(&mut rec, &format!("{}/sfnt", name), "sfnt", &b, &tables, &[m2], json!({}));
-        // collection: 1-3 members, each a random subset sharing the same bodies
-        let nm = rng.gen_range(1..=3);
-        let mut members = Vec::new();
-        for _ in 0..nm {
+        let real = rng.gen_bool(0.5);
+        let b = build_sfnt(&tables, &m2, real, &mut rng);
+        record_container(&mut rec, &format!("{}/sfnt", name), "sfnt", &b, &tables, &[m2], json!({"real": real}));
+        // collection: 1-4 members, each a random subset sharing the same bodies; sometimes a twin of an earlier member
+        let nm = rng.gen_range(1..=4);
+        let mut members: Vec<Member> = Vec::new();
+        for j in 0..nm {
+            if j > 0 && rng.gen_bool(0.25) {
+                let k = rng.gen_range(0..j);
+                members.push(Member { flavor: members[k].flavor, dir: members[k].dir.clone() });
+                continue;
+            }
             let mut d: Vec<(u32, usize)> = full.dir.iter().cloned().filter(|_| rng.gen_bool(0.7)).collect();
             d.shuffle(&mut rng);
             members.push(Member { flavor: [0x00010000u32, 0x4F54544F, 0x74727565][rng.gen_range(0..3)], dir: d });
         }
-        let b = build_ttc(&tables, &members, &mut rng);
-        record_container(&mut rec, &format!("{}/ttc", name), "ttc", &b, &tables, &members, json!({}));
+        let o = random_ttc_opts(&mut rng);
+        count_ttc_opts(&mut classes, &o, &members);
+        let b = build_ttc(&tables, &members, o, &mut rng);
+        record_container(&mut rec, &format!("{}/ttc", name), "ttc", &b, &tables, &members,
+                         json!({"lay": o.lay, "hdr": o.hdr, "share": o.share, "real": o.real}));
         // WOFF with random per-table compression
         let mut d3 = full.dir.clone();
         d3.shuffle(&mut rng);
         let m3 = Member { flavor: dir.version, dir: d3 };
-        let (b, zipped) = build_woff(&tables, &m3, &mut rng);
-        record_container(&mut rec, &format!("{}/woff", name), "woff", &b, &tables, &[m3], json!({"zipped": zipped}));
+        let ext = rng.gen_range(0..3u8);
+        *classes.entry(format!("woff:ext:{}", ext)).or_default() += 1;
+        let (b, zipped) = build_woff(&tables, &m3, ext, &mut rng);
+        record_container(&mut rec, &format!("{}/woff", name), "woff", &b, &tables, &[m3], json!({"zipped": zipped, "ext": ext}));
     }
     let n = rec.w.n;
     rec.w.finish();
